@@ -49,7 +49,7 @@ def subcritical_T(backend_name, r, margin=0.02):
     fl = RU.fluid(backend_name)
     lo, hi = fl.t_triple(), fl.t_crit()
     span = hi - lo
-    return round(lo + span * (margin + (1 - 2 * margin) * r.random()), 3)
+    return round(lo + span * (margin + (1 - 2 * margin) * r.random()), 7)  # (temperatures with digits beyond the millikelvin)
 
 
 # shipped records whose stored molar mass differs from the backend's (by 35 % and 2e-4): whichever of the two a conversion uses shows
